@@ -768,14 +768,6 @@ func (r *runner) calculateBranch(ctx context.Context, curNodeKey string, startCh
 			delete(skippedNodes, selected)
 		}
 	}
-	// Nor is a successor skipped that this node also reaches by a plain edge: the edge routes to it whatever the
-	// branches select.
-	for _, to := range startChan.writeTo {
-		delete(skippedNodes, to)
-	}
-	for _, to := range startChan.controls {
-		delete(skippedNodes, to)
-	}
 	for skipped := range skippedNodes {
 		skippedNodeList = append(skippedNodeList, skipped)
 	}
